@@ -964,3 +964,43 @@ example :
       if n = "array" then { kind := 1, ndim := 2, dcls := 3, shape := [40, 40], tnum := 12, flags := 7 } else
       if n = "points_arr" then { kind := 1, ndim := 2, dcls := 3, shape := [1, 5], tnum := 12, flags := 7 } else {}) = true := by
   decide
+
+
+/-! ## Round 4 — Labeled: compositions with the C10 theorems about `_labeled.cpp` (label union-find, borders, slic, is_same_labeling), `_center_of_mass` label path, `_bbox` labeled n-D path -/
+section Round4Labeled
+-- (theorems of this package go between this line and the `end`)
+
+end Round4Labeled
+-- ---------------------------------------------------------------------------------------------------------
+
+
+/-! ## Round 4 — Flood: compositions with the C10 theorems about `_morph.cpp` flood/queue kernels (close_holes, regmin_max, locmin_max, distance_multi position_queue, subm, disk_2d, majority_filter) and the `_thin` full pass -/
+section Round4Flood
+-- (theorems of this package go between this line and the `end`)
+
+end Round4Flood
+-- ---------------------------------------------------------------------------------------------------------
+
+
+/-! ## Round 4 — Feat: compositions with the C10 theorems about feature kernels (`_zernike` znl, SURF `compute_dominant_angle`, `_texture`, `_convex` entry point, `_histogram` otsu, `_interpolate` remaining pieces) -/
+section Round4Feat
+-- (theorems of this package go between this line and the `end`)
+
+end Round4Feat
+-- ---------------------------------------------------------------------------------------------------------
+
+
+/-! ## Round 4 — Conv: compositions with the C10 theorems about `_convolve.cpp` (convolve, rank_filter, mean_filter, template_match, daubechies coefficient tables)  -/
+section Round4Conv
+-- (theorems of this package go between this line and the `end`)
+
+end Round4Conv
+-- ---------------------------------------------------------------------------------------------------------
+
+
+/-! ## Round 4 — Alloc: compositions with the C10 theorems about result buffers: write sets of the kernels whose result is allocated uninitialised -/
+section Round4Alloc
+-- (theorems of this package go between this line and the `end`)
+
+end Round4Alloc
+-- ---------------------------------------------------------------------------------------------------------
